@@ -11,6 +11,7 @@ from typing import (
     Callable,
     Dict,
     Generic,
+    List,
     Mapping,
     Optional,
     Type,
@@ -113,6 +114,7 @@ class Runtime:
     ) -> None:
         self.handlers = {**_DEFAULT_HANDLERS, **(handlers or {})}
         self.previous = None
+        self._saved: Dict[threading.Thread, List[Optional["Runtime"]]] = {}
 
     def handle(
         self,
@@ -182,13 +184,25 @@ class Runtime:
 
     def __enter__(self):
         with lock:
-            self.previous = _RUNTIMES.get(threading.current_thread())
-            _RUNTIMES[threading.current_thread()] = self
+            thread = threading.current_thread()
+            self.previous = _RUNTIMES.get(thread)
+            # one saved runtime per active block and per thread, so that the same
+            # runtime object can be re-entered and shared between threads
+            self._saved.setdefault(thread, []).append(self.previous)
+            _RUNTIMES[thread] = self
             return self
 
     def __exit__(self, exc_type, exc_value, traceback):
         with lock:
-            _RUNTIMES[threading.current_thread()] = self.previous
+            thread = threading.current_thread()
+            saved = self._saved[thread]
+            previous = saved.pop()
+            if not saved:
+                del self._saved[thread]
+            if previous is None:
+                _RUNTIMES.pop(thread, None)
+            else:
+                _RUNTIMES[thread] = previous
             self.previous = None
 
 
